@@ -184,6 +184,10 @@ def build(t, M, style=0):
         th = [angle_of(a, M) for a in t["p"]]
         if t["g"] == "PauliRot":
             return qp.PauliRot(th[0], "".join("IXYZ"[c] for c in t["x"]), wires=t["w"])
+        if t["g"] == "MultiControlledX":
+            return qp.MultiControlledX(wires=t["w"], control_values=[bool(v) for v in t["x"]])
+        if t["g"] == "GlobalPhase" and not t["w"]:
+            return qp.GlobalPhase(th[0])
         return cls(*th, wires=t["w"])
     if k == "adj":
         return qp.adjoint(build(t["a"], M, style))
@@ -458,19 +462,49 @@ def encode_any(op, wpos, M):
         return encode_term(op, wpos, M, flt=True), False
 
 
-def encode_circuit(ops, wpos, M):
-    """operators in circuit order (first applied first) -> program ending in CIRC; (program, exact?)."""
-    out, exact = [], True
-    k = 0
+class Unencodable(Exception):
+    pass
+
+
+def _flatten(ops, wpos, M, depth_=0):
+    out, exact, k = [], True, 0
     for o in ops:
-        if o.name in ("Barrier", "Snapshot", "WireCut"):
+        nm = o.name
+        if nm in ("Barrier", "Snapshot", "WireCut"):
             continue
-        p, ex = encode_any(o, wpos, M)
+        if nm in ("Allocate", "Deallocate", "MidMeasure", "MidMeasureMP", "PauliMeasure") or type(o).__name__ in ("Conditional", "MidMeasure"):
+            raise Unencodable(f"contains {nm}")
+        try:
+            p, ex = encode_any(o, wpos, M)
+            out += p
+            exact = exact and ex
+            k += 1
+            continue
+        except (OffLattice, AttributeError) as e:
+            msg = str(e)
+        except KeyError as e:
+            raise Unencodable(f"wire {e} outside the register")
+        if depth_ > 6:
+            raise Unencodable("expansion too deep")
+        try:
+            sub = o.decomposition()
+        except Exception:
+            raise Unencodable(f"cannot expand {nm}: {msg}")
+        p, ex, kk = _flatten(sub, wpos, M, depth_ + 1)
         out += p
         exact = exact and ex
-        k += 1
+        k += kk
+    return out, exact, k
+
+
+def encode_circuit(ops, wpos, M):
+    """operators in circuit order (first applied first) -> program ending in CIRC; (program, exact?).  Operators without a
+    table entry are expanded through their own decomposition; raises Unencodable when that is impossible."""
+    if hasattr(ops, "wires") and not isinstance(ops, (list, tuple)):
+        ops = [ops]                  # a bare operator instead of the documented list
+    out, exact, k = _flatten(list(ops), wpos, M)
     if k == 0:
-        return [{"op": "PUSH", "g": rec("Identity", [1])}], True
+        return [{"op": "PUSH", "g": rec("Identity", [])}], True
     return out + [{"op": "CIRC", "k": k}], exact
 
 
